@@ -319,3 +319,11 @@ Theorem byaxis_in_selects_axes : forall dv (p : part R) (t : tsp R) i b,
     Forall2 (fun q x => nth_error (p_grid p) (Z.to_nat q) = Some x) ps (p_grid p') /\
     ts_shape t' = map (fun g => Z.of_nat (List.length g)) (p_grid p').
 Proof. exact (@byaxis_in_spec R _). Qed.
+
+(* ================================================================ element() options
+   element_opt models order= ('C'/'F': no identity fast path, Fortran copy unless at most one
+   axis is longer than 1) and cast=False (TypeError instead of converting parts); it is tied
+   by the correspondence, and with the default options it is the element() of the theorems above. *)
+Theorem element_default_options : forall v (S : obj R) (i : inp),
+  element_opt v None true S i = element v S i.
+Proof. exact (@element_opt_default R _). Qed.
